@@ -8,7 +8,9 @@ Clauses (keys):
   load-scaling     SD*c ; k_1, TN, TS unchanged            (ND under load scaling: property silent -> counted)
   cycle-scaling    ND*c ; SD, k_1, TN, TS unchanged
   permutation      everything unchanged (fresh RangeIndex, and once with the row labels carried along)
-  exact-line       jitter "none": k_1 = k, TN = 1, TS = 1 where TS is derived from the finite-zone scatter
+  exact-line       fitted fractures exactly on a line (jitter "none"; for Elementary/Probit/MaxLikeInf also: only two
+                   finite-zone fractures): k_1 = slope of that line, TN = 1, TS = 1 where TS is derived from the
+                   finite-zone scatter
   zones            finite/infinite zone partition the rows, split at finite_infinite_transition
   likelihood       log L(MaxLike result) >= log L(Elementary result) on the same data
 """
@@ -18,8 +20,10 @@ import warnings
 
 import numpy as np
 
-from mc.explore import Acc, chunked
+from mc.explore import Acc
 from mc.refs import woehler as ref
+
+warnings.filterwarnings("ignore", category=SyntaxWarning)      # pyLife docstrings with '\*' (compiled in every worker)
 
 ID = "C18"
 LEVEL = "exploration"
@@ -67,6 +71,7 @@ RTOL_EXACT = 1e-9
 # line): the likelihood is singular there; one defect, one key, whatever clause exposes it
 ZERO_SCATTER_KEY = "C18/MaxLikeFull/zero-scatter-start"
 RTOL_ML = 0.05
+TS_RUNAWAY = 1e3          # a scatter range 1 : 1000 in load direction is not an estimate but a diverged simplex
 DLL = 1e-3
 
 
@@ -103,11 +108,12 @@ def _tier(tier):
         for xf in (["load", 3.0], ["cycles", 0.01], ["perm", list(reversed(range(n)))]):
             deg.append([{"k": k, "levels": lv, "reps": 1, "jit": j, "ro": ro}, xf])
     return {
-        "fast": {"k": (3.0, 5.0, 9.0), "subsets": _subsets(), "reps": (1, 2), "jit": (None, 0, 2, 3, 5, 7),
+        "fast": {"k": (3.0, 5.0, 9.0), "subsets": _subsets(), "reps": (1, 2), "jit": (None, 0, 3, 5),
                  "ro": tuple(RO), "load_c": (0.5, 3.0, 1000.0), "cycle_c": (7.0, 0.01), "perms": "full", "all_perms_upto": 5},
-        "ml": {"k": (3.0, 5.0, 9.0), "subsets": SUB6, "reps": (1, 2), "jit": (0, 3),
-               "ro": ("mixed2", "mixed2b", "pure1", "mixedlow"),
-               "load_c": (0.5, 1000.0), "cycle_c": (7.0, 0.01), "perms": "few"},
+        "ml": {"k": (3.0, 5.0, 9.0), "subsets": [[250.0, 300.0], [250.0, 300.0, 350.0], [300.0, 350.0, 400.0],
+                                                 [250.0, 300.0, 350.0, 400.0]],
+               "reps": (1, 2), "jit": (0, 3), "ro": ("mixed2", "pure1", "mixedlow"),
+               "load_c": (1000.0,), "cycle_c": (7.0, 0.01), "perms": "reversed"},
         "ml_degenerate": deg,
     }
 
@@ -163,7 +169,9 @@ def _perms(n, mode, all_upto=0):
     def swap(i):
         return ident[:i] + (ident[i + 1], ident[i]) + ident[i + 2:]
     out = [tuple(reversed(ident))]
-    if mode == "few":            # reversed, rotate by one
+    if mode == "reversed":
+        pass
+    elif mode == "few":          # reversed, rotate by one
         out += [ident[1:] + ident[:1]]
     elif mode == "some":         # reversed, rotations by 1 / n//2 / n-1, first / middle / last adjacent transposition
         out += [ident[r:] + ident[:r] for r in (1, n // 2, n - 1)] + [swap(i) for i in (0, (n - 1) // 2, n - 2)]
@@ -215,10 +223,13 @@ def _ml_series(t):
 
 
 def shards(tier):
-    """Slow zero-scatter MaxLikeFull shards are scheduled first (wall time), then Elementary/Probit simplest first,
-    then the MaxLike family."""
+    """The slow shards are scheduled first (wall time: zero-scatter MaxLikeFull runs, then the MaxLike family, one
+    shard per series and analyzer, simplest first), then Elementary/Probit simplest first."""
     t = _tier(tier)
     out = [("mldeg", tier, [s], xf) for s, xf in t["ml_degenerate"]]
+    for s in sorted(_ml_series(t), key=lambda s: len(series_rows(s))):
+        out.append(("ml", tier, [s], "MaxLikeFull"))
+        out.append(("ml", tier, [s], "MaxLikeInf"))
     fast = sorted(_series_of(t["fast"]), key=lambda s: (len(series_rows(s)), s["jit"] is not None))
     block, cost = [], 0
     for s in fast:
@@ -230,8 +241,6 @@ def shards(tier):
         cost += c
     if block:
         out.append(("fast", tier, block, None))
-    for s in sorted(_ml_series(t), key=lambda s: len(series_rows(s))):
-        out.append(("ml", tier, [s], None))
     return out
 
 
@@ -287,10 +296,6 @@ def _close(a, b, rtol):
     return abs(a - b) <= rtol * max(abs(a), abs(b))
 
 
-def _is_nan_scatter(wc):
-    return math.isnan(wc["TN"]) or math.isnan(wc["TS"])
-
-
 def _ts_from_finite_scatter(an, rows):
     """Reference-side rule: is the analyzer's TS derived from the pearl-chain scatter (or fixed to 1)?"""
     rel = ref.relevant_rows(rows)
@@ -316,7 +321,7 @@ def check_zones(rows, labels=None):
     for name, fd in (("fatigue_data", df.fatigue_data), ("irrelevant_runouts_dropped", df.fatigue_data.irrelevant_runouts_dropped())):
         trans = float(fd.finite_infinite_transition)
         fin, inf = list(fd.finite_zone.index), list(fd.infinite_zone.index)
-        allrows = list(fd._obj.index) if name != "fatigue_data" else list(df.index)
+        allrows = list(fd.load.index)            # the tests this accessor holds (all / after dropping irrelevant run-outs)
         if sorted(fin + inf) != sorted(allrows):
             viol.append(("C18/zones/not-a-partition", {"accessor": name, "finite": fin, "infinite": inf, "rows": allrows}))
             continue
@@ -403,12 +408,18 @@ def compare(an, s, rows, base, other, xf, el):
     degenerate = an == "MaxLikeFull" and on_line(s, rows) is not None
     prefix = "C18/%s/%s" % (an, clause)
 
+    # the likelihood has no maximum in TS (it keeps rising towards TS -> infinity) and the simplex stops somewhere on
+    # that ridge: one input class, one key, whatever clause and quantity expose it
+    runaway = an in ("MaxLikeInf", "MaxLikeFull") and max(abs(b["TS"]), abs(o["TS"])) > TS_RUNAWAY
+
     def nan_key(p):
         # exact-line data whose scatter comes out NaN on one side: the exact-line defect, not a new one
         if exact_series and p in ("TN", "TS") and (math.isnan(b[p]) or math.isnan(o[p])):
             return "C18/%s/exact-line/TN-TS-nan" % an
         if degenerate:
             return ZERO_SCATTER_KEY
+        if runaway:
+            return "C18/%s/TS-runaway" % an
         return "%s/%s" % (prefix, p)
 
     viol = []
@@ -434,6 +445,8 @@ def compare(an, s, rows, base, other, xf, el):
 
     def logl(q):
         return ref.loglik_total(rel, q["SD"], q["TS"], q["k_1"], q["ND"], q["TN"])
+    if runaway:
+        prefix = "C18/%s/TS-runaway" % an
     lb, lo = logl(b), logl(o)
     if an == "MaxLikeInf" and exact_series:
         # singular finite-zone part (zero scatter): MaxLikeInf only maximises the infinite-zone part, compare that
@@ -442,11 +455,11 @@ def compare(an, s, rows, base, other, xf, el):
         lb, lo = logl(b), logl(o)
     if math.isfinite(lb) and math.isfinite(lo):
         if abs(lb - lo) > DLL:
-            return [(prefix + "/log-likelihood", {"logL_base": lb, "logL_transformed_mapped_back": lo,
+            return [(_llkey(prefix), {"logL_base": lb, "logL_transformed_mapped_back": lo,
                                                   "base": b, "transformed_mapped_back": o})], cnt
         cnt.append("maxlike/logL-compared/%s" % an)
     elif math.isfinite(lb) != math.isfinite(lo):
-        return [(prefix + "/log-likelihood", {"logL_base": lb, "logL_transformed_mapped_back": lo,
+        return [(_llkey(prefix), {"logL_base": lb, "logL_transformed_mapped_back": lo,
                                               "base": b, "transformed_mapped_back": o})], cnt
     else:
         cnt.append("maxlike/logL-not-finite-on-both-sides/%s" % an)
@@ -477,6 +490,10 @@ def compare(an, s, rows, base, other, xf, el):
     if not _close(b["ND"], o["ND"], RTOL_ML):
         cnt.append("maxlike/ND-dev>5%%(covered by line position and SD)/%s" % an)
     return viol, cnt
+
+
+def _llkey(prefix):
+    return prefix if prefix.endswith("/TS-runaway") else prefix + "/log-likelihood"
 
 
 def _flat(logl, b, p, lb):
@@ -576,9 +593,7 @@ def run_shard(shard):
                 # MaxLikeInf (0.1 s) on the exact-line / two-fracture series: scales, reversed, carried labels
                 _explore_series(acc, "MaxLikeInf", s, [x for x in xfs if _zones_checked(x)])
         elif kind == "ml":
-            xfs = transformations(n, t["ml"])
-            for an in ("MaxLikeInf", "MaxLikeFull"):
-                _explore_series(acc, an, s, xfs)
+            _explore_series(acc, xf, s, transformations(n, t["ml"]))
         else:
             _explore_series(acc, "MaxLikeFull", s, [xf])
     return acc
